@@ -76,6 +76,14 @@ pub enum Any {
     Icmp6(Icmpv6Header),
     /// IP header + extension headers (multi-part reader / writer)
     Iph(IpHeaders),
+    /// extension header chains behind a given first ip number: (headers, first, next)
+    Ext6(Ipv6Extensions, u8, u8),
+    Ext4(Ipv4Extensions, u8, u8),
+}
+/// ip number that announces the first extension header of the current "ext4" / "ext6" case
+pub static START: std::sync::atomic::AtomicU8 = std::sync::atomic::AtomicU8::new(0);
+fn start() -> IpNumber {
+    IpNumber(START.load(std::sync::atomic::Ordering::Relaxed))
 }
 
 /// error class: "len", "io" or "con:<canonical name>"
@@ -109,6 +117,19 @@ impl Any {
                 let _ = h.write(&mut v);
                 v
             }
+            // the encoding, followed by the ip number behind the chain (so that "same value" includes it)
+            Any::Ext6(h, first, next) => {
+                let mut v: Vec<u8> = vec![];
+                let _ = h.write(&mut v, IpNumber(*first));
+                v.push(*next);
+                v
+            }
+            Any::Ext4(h, first, next) => {
+                let mut v: Vec<u8> = vec![];
+                let _ = h.write(&mut v, IpNumber(*first));
+                v.push(*next);
+                v
+            }
         }
     }
     pub fn write<W: Write>(&self, w: &mut W) -> std::io::Result<()> {
@@ -129,6 +150,14 @@ impl Any {
             Any::Icmp6(h) => h.write(w),
             Any::Iph(h) => h.write(w).map_err(|e| match e {
                 err::ip::HeadersWriteError::Io(e) => e,
+                _ => std::io::Error::new(std::io::ErrorKind::InvalidData, "content"),
+            }),
+            Any::Ext6(h, first, _) => h.write(w, IpNumber(*first)).map_err(|e| match e {
+                err::ipv6_exts::HeaderWriteError::Io(e) => e,
+                _ => std::io::Error::new(std::io::ErrorKind::InvalidData, "content"),
+            }),
+            Any::Ext4(h, first, _) => h.write(w, IpNumber(*first)).map_err(|e| match e {
+                err::ipv4_exts::HeaderWriteError::Io(e) => e,
                 _ => std::io::Error::new(std::io::ErrorKind::InvalidData, "content"),
             }),
         }
@@ -160,6 +189,14 @@ impl Any {
             "icmp4" => Icmpv4Header::from_slice(b).map(|(h, r)| (Any::Icmp4(h), used(r))).map_err(|e| con(e.errp())),
             "icmp6" => Icmpv6Header::from_slice(b).map(|(h, r)| (Any::Icmp6(h), used(r))).map_err(|e| con(e.errp())),
             "iph" => IpHeaders::from_slice(b).map(|(h, p)| (Any::Iph(h), (p.payload.as_ptr() as usize) - (b.as_ptr() as usize))).map_err(|e| con(e.errp())),
+            "ext6" => Ipv6Extensions::from_slice(start(), b).map(|(h, n, r)| (Any::Ext6(h, start().0, n.0), used(r))).map_err(|e| match e {
+                err::ipv6_exts::HeaderSliceError::Len(_) => "len".to_string(),
+                err::ipv6_exts::HeaderSliceError::Content(_) => "con:ext".to_string(),
+            }),
+            "ext4" => Ipv4Extensions::from_slice(start(), b).map(|(h, n, r)| (Any::Ext4(h, start().0, n.0), used(r))).map_err(|e| match e {
+                err::ip_auth::HeaderSliceError::Len(_) => "len".to_string(),
+                err::ip_auth::HeaderSliceError::Content(_) => "con:ext".to_string(),
+            }),
             other => panic!("unknown type {}", other),
         }
     }
@@ -187,6 +224,14 @@ impl Any {
                 ip::HeaderReadError::Len(_) => "len".into(),
                 ip::HeaderReadError::Content(c) => con(c.errp()),
             }),
+            "ext6" => Ipv6Extensions::read(r, start()).map(|(h, n)| Any::Ext6(h, start().0, n.0)).map_err(|e| match e {
+                ipv6_exts::HeaderReadError::Io(_) => "io".to_string(),
+                ipv6_exts::HeaderReadError::Content(_) => "con:ext".to_string(),
+            }),
+            "ext4" => Ipv4Extensions::read(r, start()).map(|(h, n)| Any::Ext4(h, start().0, n.0)).map_err(|e| match e {
+                ip_auth::HeaderReadError::Io(_) => "io".to_string(),
+                ip_auth::HeaderReadError::Content(_) => "con:ext".to_string(),
+            }),
             other => panic!("unknown type {}", other),
         }
     }
@@ -208,10 +253,41 @@ impl Any {
     }
 }
 
+/// Ipv6Header::skip_* helpers on the bytes behind `first`: slice versions, and reader versions under a reader failing after k bytes
+fn skips(b: &[u8], first: IpNumber) -> Value {
+    let lenerr = |e: &err::LenError| json!(["err", e.required_len, e.len, e.layer_start_offset, if e.layer == err::Layer::Ipv6ExtHeader && e.len_source == LenSource::Slice { 1 } else { 0 }]);
+    let all = match Ipv6Header::skip_all_header_extensions_in_slice(b, first) {
+        Ok((n, rest)) => json!(["ok", n.0, b.len() - rest.len(), (rest.as_ptr() as usize).wrapping_sub(b.as_ptr() as usize), 1]),
+        Err(e) => lenerr(&e),
+    };
+    let one = match Ipv6Header::skip_header_extension_in_slice(b, first) {
+        Ok((n, rest)) => json!(["ok", n.0, b.len() - rest.len(), (rest.as_ptr() as usize).wrapping_sub(b.as_ptr() as usize), 1]),
+        Err(e) => lenerr(&e),
+    };
+    let mut all_r = vec![];
+    let mut one_r = vec![];
+    for k in 0..=b.len() {
+        let mut r = FailReader::new(b, k);
+        match Ipv6Header::skip_all_header_extensions(&mut r, first) {
+            Ok(n) => all_r.push(json!([k, "ok", n.0, r.c.position()])),
+            Err(_) => all_r.push(json!([k, "io", -1, -1])),
+        }
+        let mut r = FailReader::new(b, k);
+        match Ipv6Header::skip_header_extension(&mut r, first) {
+            Ok(n) => one_r.push(json!([k, "ok", n.0, r.c.position()])),
+            Err(_) => one_r.push(json!([k, "io", -1, -1])),
+        }
+    }
+    json!({"has": 1, "skippable": if Ipv6Header::is_skippable_header_extension(first) { 1 } else { 0 }, "all": all, "one": one, "all_r": all_r, "one_r": one_r})
+}
+
 pub fn run_case(id: &str, c: &Value) -> Value {
     let ty = c["type"].as_str().unwrap().to_string();
     let b: Vec<u8> = c["bytes"].as_array().unwrap().iter().map(|x| x.as_u64().unwrap() as u8).collect();
+    let first = c.get("start").and_then(|x| x.as_u64()).unwrap_or(0) as u8;
+    START.store(first, std::sync::atomic::Ordering::Relaxed);
     let r = catch_unwind(AssertUnwindSafe(|| {
+        let sk = if ty == "ext6" { skips(&b, IpNumber(first)) } else { json!({"has": 0, "skippable": -1, "all": [], "one": [], "all_r": [], "one_r": []}) };
         let sl = Any::from_slice(&ty, &b);
         let (sl_k, sl_re, sl_used) = match &sl {
             Ok((h, used)) => ("ok".to_string(), h.bytes(), *used as i64),
@@ -268,7 +344,7 @@ pub fn run_case(id: &str, c: &Value) -> Value {
                 }
             }
         }
-        json!({"ev": "io", "id": id, "type": ty, "bytes": b, "slice": {"k": sl_k, "re": sl_re, "used": sl_used}, "reads": reads, "writes": writes,
+        json!({"ev": "io", "id": id, "type": ty, "bytes": b, "start": first, "skips": sk, "slice": {"k": sl_k, "re": sl_re, "used": sl_used}, "reads": reads, "writes": writes,
                "slices": slices, "limited": limited})
     }));
     r.unwrap_or_else(|_| json!({"ev": "panic", "id": id, "type": ty}))
